@@ -208,6 +208,98 @@ class DictTransferContract(dict, TransferContract):
         dict.__init__(self); TransferContract.__init__(self, cid, log)
 
 
+# ---------------------------------------------------------------- re-entrant callbacks (C09 / C19)
+def reentrancy_probes():
+    """Callbacks that act on the registries, or on the tape they are handed, WHILE a run is in progress.  A run works on the contracts
+    and plugins that were active when it started, and nothing a callback does to its tape reaches the registries.  Everything here
+    is registered VM-wide (add_contract / add_signature_extension) and the runs pass no per-call contracts or plugins.
+    Returns a list of violation dicts."""
+    out = []
+    op = lambda n: bytes([F.opcodes_inverse['OP_' + n][0]])
+    push = lambda b: (bytes([2]) + b) if len(b) == 1 else bytes([3, len(b)]) + b
+    saved_c, saved_p = dict(F._contracts), {k: list(v) for k, v in F._plugins.items()}
+    def restore():
+        F._contracts.clear(); F._contracts.update(saved_c)
+        for k in list(F._plugins):
+            if k in saved_p:
+                F._plugins[k][:] = saved_p[k]
+            else:
+                del F._plugins[k]
+    cid, late, dyn = b'reentrant-one', b'reentrant-late', b'reentrant-dyn'
+    invoke = lambda c: push(b'a') + bytes([2, 1]) + push(c) + op('INVOKE') + op('POP0')
+    calls = []
+
+    class OneShot:
+        def abi(self, args):
+            calls.append('oneshot'); F.remove_contract(cid); return [b'k']
+
+    class Plain:
+        def abi(self, args):
+            calls.append('plain'); return [b'k']
+
+    class Registrar:
+        def abi(self, args):
+            calls.append('registrar'); F.add_contract(late, Plain()); return [b'k']
+    wraps = {'top': lambda b: b, 'if': lambda b: b'\x01' + op('IF') + len(b).to_bytes(2, 'big') + b,
+             'try': lambda b: op('TRY_EXCEPT') + len(b).to_bytes(2, 'big') + b + b'\x00\x00',
+             'def/call': lambda b: op('DEF') + b'\x07' + len(b).to_bytes(2, 'big') + b + op('CALL') + b'\x07',
+             'eval': lambda b: push(b) + op('EVAL')}
+    try:
+        # 1. a contract that deregisters itself while it is being invoked stays reachable for the rest of THAT run, at every nesting
+        for wn, w in wraps.items():
+            restore(); del calls[:]
+            F.add_contract(cid, OneShot())
+            script = invoke(cid) + w(invoke(cid)) + b'\x01'
+            try:
+                F.run_script(script); err = None
+            except BaseException as e:
+                err = '%s: %s' % (type(e).__name__, str(e)[:60])
+            if calls.count('oneshot') != 2 or err:
+                out.append(dict(what='a contract registered VM-wide that calls remove_contract on itself inside abi() was reached %d time(s) by the two INVOKEs of one run '
+                                     '(second one inside %s); a run uses the contracts active when it started (%s)' % (calls.count('oneshot'), wn, err),
+                                case=dict(script=script.hex(), registered='add_contract(%r, OneShot())' % cid, nesting=wn)))
+            if cid in F._contracts:
+                out.append(dict(what='remove_contract called from inside abi() did not deregister the contract for later runs', case=dict(script=script.hex())))
+        # 2. a contract registered by a callback in the middle of a run is not part of that run (but of the next)
+        restore(); del calls[:]
+        F.add_contract(cid, Registrar())
+        script = invoke(cid) + op('TRY_EXCEPT') + len(invoke(late)).to_bytes(2, 'big') + invoke(late) + b'\x00\x00' + b'\x01'
+        try:
+            F.run_script(script)
+        except BaseException:
+            pass
+        if 'plain' in calls:
+            out.append(dict(what='a contract added by a callback in the middle of a run (add_contract inside abi()) was invoked later in the SAME run',
+                            case=dict(script=script.hex(), registered='add_contract(%r, Registrar())' % cid)))
+        del calls[:]
+        try:
+            F.run_script(invoke(late) + b'\x01')
+        except BaseException:
+            pass
+        if 'plain' not in calls:
+            out.append(dict(what='a contract added by a callback (add_contract inside abi()) is not active for the next run', case=dict(script=(invoke(late) + b'\x01').hex())))
+        # 3. what a plugin does to the tape it is handed stays in that run: the registries are changed by their own functions only
+        restore(); del calls[:]
+        def loader(tape, stack, cache):
+            tape.contracts[dyn] = Plain()
+            tape.plugins.setdefault('reentrant-scope', []).append(loader)
+        F.add_signature_extension(loader)
+        script = op('GET_MESSAGE') + b'\x00' + op('POP0') + invoke(dyn) + b'\x01'
+        try:
+            F.run_script(script)
+        except BaseException:
+            pass
+        F.remove_signature_extension(loader)
+        if dyn in F._contracts or 'reentrant-scope' in F._plugins:
+            out.append(dict(what='a signature extension wrote into tape.contracts / tape.plugins of the run it was called in, and the entry is now in the module '
+                                 'registry (contracts %r, plugin scopes %r) although add_contract / add_plugin were never called'
+                                 % ([k for k in F._contracts if k not in saved_c], [k for k in F._plugins if k not in saved_p]),
+                            case=dict(script=script.hex(), registered='add_signature_extension(loader)')))
+    finally:
+        restore()
+    return out
+
+
 # ---------------------------------------------------------------- configuration of one case
 class Cfg:
     """Embedder configuration of a run (mirrors State.config)."""
